@@ -368,6 +368,17 @@ Proof.
 Qed.
 
 
+Lemma str_payload_den H R h v :
+  Inv H R -> hheld H R h -> den H v h -> str_payload H h = match v with VStr b => Some b | _ => None end.
+Proof.
+  intros I Hd D. destruct h as [s|b]; cbn [str_payload].
+  - apply den_scalar_inv in D. subst v. reflexivity.
+  - cbn [hheld] in Hd. destruct (held_lookup H R b I Hd) as (blk & E & L & LK). rewrite LK.
+    destruct (pl blk) as [s|k ks hs] eqn:P.
+    + rewrite (den_str_inv H v b blk s D E P). reflexivity.
+    + destruct (den_node_inv H v b blk k ks hs D E P) as (vs & -> & _). reflexivity.
+Qed.
+
 (* ------------------------------------------------------------------------------------------ *)
 (* one step of a history                                                                        *)
 (* ------------------------------------------------------------------------------------------ *)
@@ -411,7 +422,7 @@ Proof.
   assert (STAY : exists s', Some (s, BadVar) = Some (s', BadVar) /\ Inv (hp s') (vars s') /\
                    Forall2 (den (hp s')) vs (vars s') /\ ext (hp s) (hp s')).
   { exists s. splits; auto. apply ext_refl. }
-  destruct o as [i p sc|i p b|i p k items|i p j sp|i p|i j|i j|i p|i p b|i p k c j sp]; unfold mstep, spec_step; rewrite LEN.
+  destruct o as [i p sc|i p b|i p k items|i p j sp|i p|i j|i j|i p|i p b|i p k c j sp|i p j sp|i p j sp k]; unfold mstep, spec_step; rewrite LEN.
   - (* OSetScalar *)
     destruct (i <? length (vars s)) eqn:Li; [|exact STAY]. apply Nat.ltb_lt in Li. rewrite let_pair.
     destruct (mupd_arg_ok (leaf_set (HS sc)) (fun _ => VS sc) (HS sc) (fun H => den H (VS sc) (HS sc)) s vs i p
@@ -549,6 +560,64 @@ Proof.
         subst vs1. rewrite (vupd_var_again (vcont k (CIns n key) xv) (vcont k CTouch VNull) vs i p) in E by (auto; lia).
         exists s'. cbn [fst snd hp vars] in *. splits; auto.
         eapply ext_trans; [exact X1|eapply ext_trans; eauto].
+      * rewrite MR. exists s1. cbn [fst snd]. splits; auto.
+    + exists s1. cbn [fst snd]. splits; auto.
+  - (* OAssignStrFrom *)
+    destruct ((i <? length (vars s)) && (j <? length (vars s))) eqn:C; [|exact STAY].
+    apply andb_true_iff in C. destruct C as [Li Lj]. apply Nat.ltb_lt in Li. apply Nat.ltb_lt in Lj.
+    assert (NOSRC : exists s', Some (s, NoSrc) = Some (s', NoSrc) /\ Inv (hp s') (vars s') /\
+                      Forall2 (den (hp s')) vs (vars s') /\ ext (hp s) (hp s')).
+    { exists s. splits; auto. apply ext_refl. }
+    pose proof (mread_ok sp (hp s) (vars s) (geth (vars s) j) (getv vs j) I
+                  (hheld_root _ _ _ (geth_In _ _ Lj)) (Forall2_nth _ _ _ _ _ _ F Lj)) as MR.
+    destruct (mread sp (hp s) (geth (vars s) j)) as [x|]; [|rewrite MR; exact NOSRC].
+    destruct MR as (xv & VR & Dx & Hx). rewrite VR.
+    rewrite (str_payload_den (hp s) (vars s) x xv I Hx Dx).
+    destruct xv as [sc|b|k ks xs]; try exact NOSRC.
+    (* the mutable navigation of the source changes no value *)
+    destruct (mupd_var_ok (leaf_str []) (fun v => VStr (to_str v)) [] (fun _ => True) s vs j sp
+                leaf_strtouch_spec closed_true Lj I Logic.I F) as (s0 & ok0 & E0 & I0 & X0 & F0 & _ & LEN0).
+    rewrite (vupd_var_fix (fun v => VStr (to_str v)) vs j sp (VStr b) VR eq_refl) in F0. cbn [fst] in F0.
+    rewrite E0. assert (I0' : Inv (hp s0) (vars s0)) by (destruct ok0; exact I0). clear I0.
+    assert (Li0 : i < length (vars s0)) by lia.
+    destruct (mupd_var_ok leaf_id (fun v => v) [] (fun _ => True) s0 vs i p leaf_id_spec closed_true Li0 I0' Logic.I F0)
+      as (s1 & ok & E1 & I1 & X1 & F1 & OK & LEN1).
+    rewrite E1, let_pair, OK. destruct ok; cbn [app] in I1.
+    + set (vs1 := fst (vupd_var vs i p (fun v => v))) in *.
+      assert (Li1 : i < length (vars s1)) by lia.
+      destruct (mupd_arg_ok (leaf_setstr b) (fun _ => VStr b) HNull (fun _ => True) s1 vs1 i p
+                  (leaf_spec_null _ _ _ (leaf_setstr_spec b)) closed_true Li1) as (s' & E & I' & X' & F' & _);
+        [apply Inv_scalar; auto|exact Logic.I|auto|].
+      subst vs1. rewrite (vupd_var_again (fun _ => VStr b) (fun v => v) vs i p) in E by (auto; lia).
+      exists s'. cbn [fst snd]. splits; auto.
+      eapply ext_trans; [exact X0|eapply ext_trans; eauto].
+    + exists s1. cbn [fst snd]. splits; auto. eapply ext_trans; eauto.
+  - (* OAssignNodeFrom *)
+    destruct ((i <? length (vars s)) && (j <? length (vars s))) eqn:C; [|exact STAY].
+    apply andb_true_iff in C. destruct C as [Li Lj]. apply Nat.ltb_lt in Li. apply Nat.ltb_lt in Lj.
+    destruct (mupd_var_ok leaf_id (fun v => v) [] (fun _ => True) s vs i p leaf_id_spec closed_true Li I Logic.I F)
+      as (s1 & ok & E1 & I1 & X1 & F1 & OK & LEN1).
+    rewrite E1, let_pair, OK. destruct ok; cbn [app] in I1.
+    + set (vs1 := fst (vupd_var vs i p (fun v => v))) in *.
+      assert (Lj1 : j < length (vars s1)) by lia.
+      pose proof (mread_ok sp (hp s1) (vars s1) (geth (vars s1) j) (getv vs1 j) I1
+                    (hheld_root _ _ _ (geth_In _ _ Lj1)) (Forall2_nth _ _ _ _ _ _ F1 Lj1)) as MR.
+      destruct (mread sp (hp s1) (geth (vars s1) j)) as [y|].
+      * destruct MR as (yv & VR & Dy & Hy). rewrite VR.
+        destruct (mopen_den k (hp s1) (vars s1) y yv I1 Hy Dy) as (ks & hs & xs & M & V & FX & HF).
+        rewrite M, V.
+        destruct (share_all_ok hs (hp s1) (vars s1) I1) as (Is & Xs & _).
+        { intros b J. rewrite Forall_forall in HF. specialize (HF _ J). eapply held_live; eauto. }
+        set (H0 := fold_left share hs (hp s1)) in *.
+        destruct (alloc H0 (PNode k ks hs)) as [H2 x] eqn:A.
+        destruct (alloc_node_den H0 (vars s1) k ks hs xs H2 x Is (Forall2_den_ext _ _ _ _ Xs FX) A) as (I2 & X2 & D2).
+        destruct (mupd_arg_ok (leaf_set x) (fun _ => VNode k ks xs) x (fun H => den H (VNode k ks xs) x)
+                    {| hp := H2; vars := vars s1 |} vs1 i p (leaf_set_spec _ _) (closed_den _ _))
+          as (s' & E & I' & X' & F' & _); cbn [hp vars]; auto; try lia;
+          [eapply Forall2_den_ext; [|exact F1]; eapply ext_trans; eauto|].
+        subst vs1. rewrite (vupd_var_again (fun _ => VNode k ks xs) (fun v => v) vs i p) in E by (auto; lia).
+        exists s'. cbn [fst snd hp vars] in *. splits; auto.
+        eapply ext_trans; [exact X1|eapply ext_trans; [exact Xs|eapply ext_trans; eauto]].
       * rewrite MR. exists s1. cbn [fst snd]. splits; auto.
     + exists s1. cbn [fst snd]. splits; auto.
 Qed.
